@@ -6,15 +6,19 @@
 //         -- real bitslice/memshift32/xor_columns/add_round_constant_bit/sub_bytes_nots/inv_shift_rows_k adjustments/NOT
 //         compensation, sub_bytes := bitslice o (uf ^ 0x63 per byte) o inv_bitslice, SubWord of the oracle := the same uf.
 //   (ENC) for every round-key sequence rk[0..=nr] and block:  encrypt_block on the state m_keys(rk) == FIPS-197 Cipher(rk, block)
-//         -- real padding of the batch, bitslice, add_round_key, mix_columns_k, shift_rows_2, loop exits, inv_bitslice;
-//         sub_bytes := uf ^ 0x63 on the bytes of lane 0, the padding lanes havocked at every call (so the result is also
-//         shown not to depend on them); the oracle's S-box := the same uf.
-//   (DEC) likewise decrypt_block == FIPS-197 InvCipher(rk, block) (straight form, 5.3), inv_sub_bytes := uf'(. ^ 0x63).
-//   L:    sub_bytes / inv_sub_bytes are exactly these stubs with uf = S-box, uf' = inverse S-box (all states).
-//   m_keys is the explicit fixslice key format (phase r mod 4 resp. r mod 2, NOT mask, replication): fx_keyformat.
-//   => Aes*::new(key).encrypt_block(b) == Cipher(KeyExpansion(key), b) and decrypt_block == InvCipher, all keys, all blocks.
+//         -- real padding of the batch, bitslice, add_round_key, shift_rows_2, round sequencing / loop exits / key offsets,
+//         inv_bitslice; sub_bytes := uf ^ 0x63 on the bytes of lane 0; mix_columns_k := its specification
+//         ShiftRows^-k o MixColumns o ShiftRows^k on lane 0 (leaf lemmas fx_mix_columns + fx_mc_model); in both stubs the
+//         padding lanes are havocked at every call (so the result is also shown not to depend on them); the oracle's S-box
+//         := the same uf.
+//   (DEC) likewise decrypt_block == FIPS-197 InvCipher(rk, block) (straight form, 5.3), inv_sub_bytes := uf'(. ^ 0x63),
+//         inv_mix_columns_k := ShiftRows^-k o InvMixColumns o ShiftRows^k (fx_inv_mix_columns + fx_imc_model).
+//   L:    sub_bytes / inv_sub_bytes are exactly these stubs with uf = S-box, uf' = inverse S-box (all states, all lanes).
+//   m_keys is the explicit fixslice key format (phase r mod 4 resp. r mod 2, NOT mask, replication over the lanes).
+//   => instantiate (ENC)/(DEC) at rk = KeyExpansion(key): Aes*::new(key).encrypt_block(b) == Cipher(KeyExpansion(key), b) and
+//      decrypt_block == InvCipher, all keys, all blocks.
 // C04 (soft share): (PAR) one full batch through encrypt_blocks / decrypt_blocks: output block `lane` == Cipher(rk, input
-//   block `lane`) with every other lane havocked in every S-box layer, lane symbolic; with (ENC) this is "equals the
+//   block `lane`) with every other lane havocked in every stubbed layer, lane symbolic; with (ENC) this is "equals the
 //   single-block result and depends on no other block".
 // C12: (KS) on the Enc/Dec constructors + conversions and Clone preserve the key words on an arbitrary state.
 use super::prelude::*;
@@ -37,6 +41,38 @@ pub fn st_isb_lane(s: &mut [fx::W]) {
 pub fn st_sb_rep(s: &mut [fx::W]) {
     fx::stub_sb_rep(s)
 }
+#[cfg(kani)]
+pub fn st_mc0(s: &mut [fx::W; 8]) {
+    fx::stub_mc0(s)
+}
+#[cfg(kani)]
+pub fn st_mc1(s: &mut [fx::W; 8]) {
+    fx::stub_mc1(s)
+}
+#[cfg(kani)]
+pub fn st_mc2(s: &mut [fx::W; 8]) {
+    fx::stub_mc2(s)
+}
+#[cfg(kani)]
+pub fn st_mc3(s: &mut [fx::W; 8]) {
+    fx::stub_mc3(s)
+}
+#[cfg(kani)]
+pub fn st_imc0(s: &mut [fx::W; 8]) {
+    fx::stub_imc0(s)
+}
+#[cfg(kani)]
+pub fn st_imc1(s: &mut [fx::W; 8]) {
+    fx::stub_imc1(s)
+}
+#[cfg(kani)]
+pub fn st_imc2(s: &mut [fx::W; 8]) {
+    fx::stub_imc2(s)
+}
+#[cfg(kani)]
+pub fn st_imc3(s: &mut [fx::W; 8]) {
+    fx::stub_imc3(s)
+}
 
 macro_rules! soft_ks {
     ($name:ident, $ty:ty, $kacc:path, $klen:expr, $nr:expr, $nw:expr) => {
@@ -55,98 +91,137 @@ macro_rules! soft_ks {
         }
     };
 }
-macro_rules! soft_enc {
-    ($name:ident, $mk:path, $nr:expr, $nw:expr) => {
+// the stub lists name private functions of the fixslice module: mix_columns_2/3 exist only in the normal form
+#[cfg(not(aes_compact))]
+macro_rules! soft_w {
+    (enc, $name:ident, $bytes:expr, |$inp:ident| $body:block) => {
         verif_harness! {
             name: $name,
-            bytes: ($nr + 1) * 16 + 16,
+            bytes: $bytes,
             unwind: 70,
-            stubs: [(crate::soft::fixslice::sub_bytes, st_sb_lane)],
-            prop: |inp| {
-                fx::set_lane(0);
-                let rk = fx::take_rk(inp, 0, $nr);
-                let blk: [u8; 16] = take(inp, ($nr + 1) * 16);
-                let c = $mk(fx::m_keys::<$nw>(&rk, $nr));
-                let mut b = blk.into();
-                c.encrypt_block(&mut b);
-                Some(b.0 == ra::cipher_sb_with(&rk, $nr, &blk, fx::uf_sb::call))
-            }
+            stubs: [
+                (crate::soft::fixslice::sub_bytes, st_sb_lane),
+                (crate::soft::fixslice::mix_columns_0, st_mc0),
+                (crate::soft::fixslice::mix_columns_1, st_mc1),
+                (crate::soft::fixslice::mix_columns_2, st_mc2),
+                (crate::soft::fixslice::mix_columns_3, st_mc3)
+            ],
+            prop: |$inp| $body
         }
+    };
+    (dec, $name:ident, $bytes:expr, |$inp:ident| $body:block) => {
+        verif_harness! {
+            name: $name,
+            bytes: $bytes,
+            unwind: 70,
+            stubs: [
+                (crate::soft::fixslice::inv_sub_bytes, st_isb_lane),
+                (crate::soft::fixslice::inv_mix_columns_0, st_imc0),
+                (crate::soft::fixslice::inv_mix_columns_1, st_imc1),
+                (crate::soft::fixslice::inv_mix_columns_2, st_imc2),
+                (crate::soft::fixslice::inv_mix_columns_3, st_imc3)
+            ],
+            prop: |$inp| $body
+        }
+    };
+}
+#[cfg(aes_compact)]
+macro_rules! soft_w {
+    (enc, $name:ident, $bytes:expr, |$inp:ident| $body:block) => {
+        verif_harness! {
+            name: $name,
+            bytes: $bytes,
+            unwind: 70,
+            stubs: [
+                (crate::soft::fixslice::sub_bytes, st_sb_lane),
+                (crate::soft::fixslice::mix_columns_0, st_mc0),
+                (crate::soft::fixslice::mix_columns_1, st_mc1)
+            ],
+            prop: |$inp| $body
+        }
+    };
+    (dec, $name:ident, $bytes:expr, |$inp:ident| $body:block) => {
+        verif_harness! {
+            name: $name,
+            bytes: $bytes,
+            unwind: 70,
+            stubs: [
+                (crate::soft::fixslice::inv_sub_bytes, st_isb_lane),
+                (crate::soft::fixslice::inv_mix_columns_0, st_imc0),
+                (crate::soft::fixslice::inv_mix_columns_1, st_imc1)
+            ],
+            prop: |$inp| $body
+        }
+    };
+}
+macro_rules! soft_enc {
+    ($name:ident, $mk:path, $nr:expr, $nw:expr) => {
+        soft_w!(enc, $name, ($nr + 1) * 16 + 16, |inp| {
+            fx::set_lane(0);
+            let rk = fx::take_rk(inp, 0, $nr);
+            let blk: [u8; 16] = take(inp, ($nr + 1) * 16);
+            let c = $mk(fx::m_keys::<$nw>(&rk, $nr));
+            let mut b = blk.into();
+            c.encrypt_block(&mut b);
+            Some(b.0 == ra::cipher_sb_mc_with(&rk, $nr, &blk, fx::o_sb, fx::o_mc))
+        });
     };
 }
 macro_rules! soft_dec {
     ($name:ident, $mk:path, $nr:expr, $nw:expr) => {
-        verif_harness! {
-            name: $name,
-            bytes: ($nr + 1) * 16 + 16,
-            unwind: 70,
-            stubs: [(crate::soft::fixslice::inv_sub_bytes, st_isb_lane)],
-            prop: |inp| {
-                fx::set_lane(0);
-                let rk = fx::take_rk(inp, 0, $nr);
-                let blk: [u8; 16] = take(inp, ($nr + 1) * 16);
-                let c = $mk(fx::m_keys::<$nw>(&rk, $nr));
-                let mut b = blk.into();
-                c.decrypt_block(&mut b);
-                Some(b.0 == ra::inv_cipher_sb_with(&rk, $nr, &blk, fx::uf_isb::call))
-            }
-        }
+        soft_w!(dec, $name, ($nr + 1) * 16 + 16, |inp| {
+            fx::set_lane(0);
+            let rk = fx::take_rk(inp, 0, $nr);
+            let blk: [u8; 16] = take(inp, ($nr + 1) * 16);
+            let c = $mk(fx::m_keys::<$nw>(&rk, $nr));
+            let mut b = blk.into();
+            c.decrypt_block(&mut b);
+            Some(b.0 == ra::inv_cipher_with(&rk, $nr, &blk, fx::o_isb, fx::o_imc))
+        });
     };
 }
 macro_rules! soft_par_enc {
     ($name:ident, $mk:path, $ty:ty, $nr:expr, $nw:expr) => {
-        verif_harness! {
-            name: $name,
-            bytes: ($nr + 1) * 16 + 16 * fx::NB + 1,
-            unwind: 70,
-            stubs: [(crate::soft::fixslice::sub_bytes, st_sb_lane)],
-            prop: |inp| {
-                const KB: usize = ($nr + 1) * 16;
-                let lane = inp[KB + 16 * fx::NB] as usize;
-                vassume!(lane < fx::NB);
-                fx::set_lane(lane);
-                let rk = fx::take_rk(inp, 0, $nr);
-                let x = fx::blocks_of(inp, KB);
-                let c = $mk(fx::m_keys::<$nw>(&rk, $nr));
-                let mut bl: [cipher::Block<$ty>; fx::NB] = [[0u8; 16].into(); fx::NB];
-                let mut j = 0;
-                while j < fx::NB {
-                    bl[j] = x[j].into();
-                    j += 1;
-                }
-                c.encrypt_blocks(&mut bl);
-                let xi = x[lane];
-                Some(bl[lane].0 == ra::cipher_sb_with(&rk, $nr, &xi, fx::uf_sb::call))
+        soft_w!(enc, $name, ($nr + 1) * 16 + 16 * fx::NB + 1, |inp| {
+            const KB: usize = ($nr + 1) * 16;
+            let lane = inp[KB + 16 * fx::NB] as usize;
+            vassume!(lane < fx::NB);
+            fx::set_lane(lane);
+            let rk = fx::take_rk(inp, 0, $nr);
+            let x = fx::blocks_of(inp, KB);
+            let c = $mk(fx::m_keys::<$nw>(&rk, $nr));
+            let mut bl: [cipher::Block<$ty>; fx::NB] = [[0u8; 16].into(); fx::NB];
+            let mut j = 0;
+            while j < fx::NB {
+                bl[j] = x[j].into();
+                j += 1;
             }
-        }
+            c.encrypt_blocks(&mut bl);
+            let xi = x[lane];
+            Some(bl[lane].0 == ra::cipher_sb_mc_with(&rk, $nr, &xi, fx::o_sb, fx::o_mc))
+        });
     };
 }
 macro_rules! soft_par_dec {
     ($name:ident, $mk:path, $ty:ty, $nr:expr, $nw:expr) => {
-        verif_harness! {
-            name: $name,
-            bytes: ($nr + 1) * 16 + 16 * fx::NB + 1,
-            unwind: 70,
-            stubs: [(crate::soft::fixslice::inv_sub_bytes, st_isb_lane)],
-            prop: |inp| {
-                const KB: usize = ($nr + 1) * 16;
-                let lane = inp[KB + 16 * fx::NB] as usize;
-                vassume!(lane < fx::NB);
-                fx::set_lane(lane);
-                let rk = fx::take_rk(inp, 0, $nr);
-                let x = fx::blocks_of(inp, KB);
-                let c = $mk(fx::m_keys::<$nw>(&rk, $nr));
-                let mut bl: [cipher::Block<$ty>; fx::NB] = [[0u8; 16].into(); fx::NB];
-                let mut j = 0;
-                while j < fx::NB {
-                    bl[j] = x[j].into();
-                    j += 1;
-                }
-                c.decrypt_blocks(&mut bl);
-                let xi = x[lane];
-                Some(bl[lane].0 == ra::inv_cipher_sb_with(&rk, $nr, &xi, fx::uf_isb::call))
+        soft_w!(dec, $name, ($nr + 1) * 16 + 16 * fx::NB + 1, |inp| {
+            const KB: usize = ($nr + 1) * 16;
+            let lane = inp[KB + 16 * fx::NB] as usize;
+            vassume!(lane < fx::NB);
+            fx::set_lane(lane);
+            let rk = fx::take_rk(inp, 0, $nr);
+            let x = fx::blocks_of(inp, KB);
+            let c = $mk(fx::m_keys::<$nw>(&rk, $nr));
+            let mut bl: [cipher::Block<$ty>; fx::NB] = [[0u8; 16].into(); fx::NB];
+            let mut j = 0;
+            while j < fx::NB {
+                bl[j] = x[j].into();
+                j += 1;
             }
-        }
+            c.decrypt_blocks(&mut bl);
+            let xi = x[lane];
+            Some(bl[lane].0 == ra::inv_cipher_with(&rk, $nr, &xi, fx::o_isb, fx::o_imc))
+        });
     };
 }
 macro_rules! soft_conv {
@@ -203,11 +278,11 @@ soft_ks!(soft_ks128, crate::Aes128, fx::k128, 16, 10, 88);
 soft_ks!(soft_ks128e, crate::Aes128Enc, fx::k128e, 16, 10, 88);
 //@ harness name=soft_ks128d prop=C02,C03,C12 tier=quick bits=128 stub=1 est=100 desc="W(KS): key words of Aes128Dec::new(key) == fixslice format of KeyExpansion(key); all keys (decrypt-only form, own constructor)"
 soft_ks!(soft_ks128d, crate::Aes128Dec, fx::k128d, 16, 10, 88);
-//@ harness name=soft_enc128 prop=C02,C03,C20 tier=quick bits=1536 stub=1 est=300 desc="W(ENC): Aes128 on the state m_keys(rk): encrypt_block(b) == FIPS-197 Cipher(rk, b); all 11 round keys arbitrary (superset of all keys), all blocks; S-box uninterpreted on lane 0 (shared with the oracle), padding lanes havocked in every S-box layer; linear layers, key addition, batch padding, bitslice real"
+//@ harness name=soft_enc128 prop=C02,C03,C20 tier=quick bits=1536 stub=1 est=300 desc="W(ENC): Aes128 on the state m_keys(rk): encrypt_block(b) == FIPS-197 Cipher(rk, b); all 11 round keys arbitrary (superset of all keys), all blocks; S-box uninterpreted on lane 0 (shared with the oracle), mix_columns_k replaced by their proved specification ShiftRows^-k o MixColumns o ShiftRows^k on lane 0, padding lanes havocked in every stubbed layer; round sequencing, key offsets, add_round_key, shift_rows_2, batch padding, bitslice / inv_bitslice real"
 soft_enc!(soft_enc128, fx::mk128, 10, 88);
 //@ harness name=soft_enc128e prop=C02,C03,C12 tier=quick bits=1536 stub=1 est=300 desc="W(ENC): Aes128Enc on the state m_keys(rk): encrypt_block(b) == FIPS-197 Cipher(rk, b); all round keys, all blocks"
 soft_enc!(soft_enc128e, fx::mk128e, 10, 88);
-//@ harness name=soft_dec128 prop=C02,C03,C20 tier=quick bits=1536 stub=1 est=300 desc="W(DEC): Aes128 on the state m_keys(rk): decrypt_block(b) == FIPS-197 InvCipher(rk, b) (straight form); all round keys, all blocks; inverse S-box uninterpreted on lane 0, padding lanes havocked"
+//@ harness name=soft_dec128 prop=C02,C03,C20 tier=quick bits=1536 stub=1 est=300 desc="W(DEC): Aes128 on the state m_keys(rk): decrypt_block(b) == FIPS-197 InvCipher(rk, b) (straight form); all round keys, all blocks; inverse S-box uninterpreted on lane 0, inv_mix_columns_k replaced by their proved specification ShiftRows^-k o InvMixColumns o ShiftRows^k, padding lanes havocked; sequencing, key offsets, add_round_key, inv_shift_rows_2, bitslice real"
 soft_dec!(soft_dec128, fx::mk128, 10, 88);
 //@ harness name=soft_dec128d prop=C02,C03,C12 tier=quick bits=1536 stub=1 est=300 desc="W(DEC): Aes128Dec on the state m_keys(rk): decrypt_block(b) == FIPS-197 InvCipher(rk, b); all round keys, all blocks"
 soft_dec!(soft_dec128d, fx::mk128d, 10, 88);
